@@ -159,7 +159,7 @@ Section C02.
       KeyExpirationError, which [link_skipped] (hence [bad_file_b]) classifies as skipped *)
   Theorem C02_expired_key : forall sg key msg skid mkid sval c v,
     jstr_of (jget S_keyid sg) = Some skid -> jstr_of (jget S_keyid key) = Some mkid ->
-    jstr_of (jget S_signature sg) = Some sval -> jget S_subkeys key = None ->
+    jstr_of (jget S_signature sg) = Some sval -> gpg_sig_schema_ok sg = true -> jget S_subkeys key = None ->
     jget S_creation_time key = Some (JInt c) -> jget S_validity_period key = Some (JInt v) ->
     c <> 0%Z -> v <> 0%Z -> (c + v < now_s)%Z ->
     gpg_verify sig_ok now_s sg key msg = Err EKeyExpired.
